@@ -38,43 +38,56 @@ def panicBodyOK (m : Option ErrMode) (c : Chunk) : Bool :=
 
 def statusOf (s : Option Nat) : Nat := s.getD 200
 
-def verdict (m : Option ErrMode) (i : Inner) (r : Resp) : String :=
+def oneChunk (p : Chunk → Bool) : List Chunk → Bool
+  | [c] => p c
+  | _ => false
+
+def firstChunkIs (c : Chunk) : List Chunk → Bool
+  | x :: _ => x == c
+  | [] => false
+
+/-- the property for one request -/
+def good (m : Option ErrMode) (i : Inner) (r : Resp) : Bool :=
   match i with
   | .ret s e =>
+    if s ≥ 400 then r.commits == 1 && r.status == s && oneChunk (errorBodyOK m s e) (chunks r)
+    else decide (r.commits ≤ 1) && (r.status == 0 || r.status == 200) && (chunks r).isEmpty
+  | .write s b _ => r.commits == 1 && r.status == statusOf s && chunks r == [.inner b]
+  | .panicBefore => r.commits == 1 && r.status == 500 && oneChunk (panicBodyOK m) (chunks r)
+  | .panicAfter s b =>
+    -- either the bytes had reached the client (status and bytes first; a further commit attempt
+    -- is tolerated), or they were still buffered by a wrapper and the client sees a panic before
+    -- anything was written
+    (r.commits == 1 && r.status == 500 && oneChunk (panicBodyOK m) (chunks r)) ||
+    (r.commits != 0 && r.status == statusOf s && firstChunkIs (.inner b) (chunks r))
+
+/-- which clause failed (only consulted when `good` is false) -/
+def diagnose (i : Inner) (r : Resp) : String :=
+  match i with
+  | .ret s _ =>
     if s ≥ 400 then
       if r.commits != 1 then "bad:commits:error response not committed exactly once"
       else if r.status != s then "bad:status:client did not receive the reported error status"
-      else match chunks r with
-        | [c] => if !errorBodyOK m s e c then "bad:error-body:wrong error body for the status"
-                 else "ok"
-        | _ => "bad:error-body:error status without exactly one error body"
+      else "bad:error-body:wrong or missing error body for the status"
     else
       if r.commits > 1 then "bad:commits:more than one header commit"
-      else if !(r.status == 0 || r.status == 200) then "bad:status:status invented"
       else if !(chunks r).isEmpty then "bad:body:body invented"
-      else "ok"
-  | .write s b _ =>
+      else "bad:status:status invented"
+  | .write s _ _ =>
     if r.commits != 1 then "bad:commits:written response not committed exactly once"
     else if r.status != statusOf s then "bad:status:written status altered"
-    else if chunks r != [.inner b] then "bad:body:written body altered"
-    else "ok"
+    else "bad:body:written body altered"
   | .panicBefore =>
     if r.commits != 1 then "bad:commits:panic response not committed exactly once"
     else if r.status != 500 then "bad:status:panic before writing did not give 500"
-    else match chunks r with
-      | [c] => if panicBodyOK m c then "ok" else "bad:error-body:wrong body after a panic"
-      | _ => "bad:error-body:panic without exactly one error body"
-  | .panicAfter s b =>
-    -- either the bytes had reached the client (status and bytes first), or they were still
-    -- buffered by a wrapper and the client sees a panic before anything was written
-    if r.commits = 1 && r.status = 500 && (match chunks r with
-        | [c] => panicBodyOK m c
-        | _ => false) then "ok"
-    else if r.commits = 0 then "bad:commits:nothing committed"
+    else "bad:error-body:wrong or missing body after a panic"
+  | .panicAfter s _ =>
+    if r.commits = 0 then "bad:commits:nothing committed"
     else if r.status != statusOf s then "bad:status:written status altered"
-    else match chunks r with
-      | c :: _ => if c == .inner b then "ok" else "bad:body:written bytes do not come first"
-      | [] => "bad:body:written bytes lost"
+    else "bad:body:written bytes do not come first"
+
+def verdict (m : Option ErrMode) (i : Inner) (r : Resp) : String :=
+  if good m i r then "ok" else diagnose i r
 
 /-- handlers the property quantifies over: an error value without a status (0, err) is only
 returned by a handler that has written; a non-error status comes without an error value -/
